@@ -425,12 +425,18 @@ func genScenario(c *rig.Ctx, i int) Case {
 		ops = append(ops, errReply())
 		maybe(40, func() { ops = append(ops, errReply()) })
 		maybe(70, func() { ops = append(ops, sch("globalCount"), Op{Op: "reconcile"}) })
-		maybe(40, func() { ops = append(ops, Op{Op: "setlimit", Accept: true, Limit: g.limit(), RT: g.rt - int64(g.n(3))}) }) // stale
-		maybe(30, func() { ops = append(ops, fresh(Op{Op: "setlimit", Err: "RequestIDTooOld", Accept: true, Limit: g.limit()})) })
+		maybe(40, func() {
+			ops = append(ops, Op{Op: "setlimit", Accept: true, Limit: g.limit(), RT: g.rt - int64(g.n(3))})
+		}) // stale
+		maybe(30, func() {
+			ops = append(ops, fresh(Op{Op: "setlimit", Err: "RequestIDTooOld", Accept: true, Limit: g.limit()}))
+		})
 		ops = append(ops, fresh(Op{Op: "setlimit", Accept: g.n(4) != 0, Limit: g.limit()}))
 		maybe(50, func() { ops = append(ops, sch("globalCount"), Op{Op: "reconcile"}) })
 		maybe(50, func() { ops = append(ops, fresh(Op{Op: "setlimit", Accept: true, Limit: g.limit()})) })
-		maybe(30, func() { ops = append(ops, errReply(), Op{Op: "reconcile"}, fresh(Op{Op: "setlimit", Accept: true, Limit: g.limit()})) })
+		maybe(30, func() {
+			ops = append(ops, errReply(), Op{Op: "reconcile"}, fresh(Op{Op: "setlimit", Accept: true, Limit: g.limit()}))
+		})
 	case 2: // global allocate: answers around a limit that is lowered and raised, the same answer repeated
 		ops = append(ops, sch("globalAllocate"))
 		ready()
